@@ -703,7 +703,42 @@ def refuses(c, cond_texts, exc=None, env=None, loop_values=None):
     return False, f"no `raise {exc or ''}` is guarded by a condition equivalent to `{cond_texts if isinstance(cond_texts, str) else cond_texts[0]}`"
 
 
+def _arith_atoms(c, formula):
+    """(free names, text) of the atoms of a formula that contain non-linear integer arithmetic (%, //, *)."""
+    out = []
+    for a in dl.f_atoms(formula, set()):
+        e = c.eng.atom_ir.get(a)
+        if e is None or e[0] in ('caseatom', 'defaultatom'):
+            continue
+        if any(x[0] == 'bin' and x[1] in ('%', '//', '**') or x[0] == 'nary' and x[1] == '*' or x[0] == 'ceildiv' for x in ir.walk(e)):
+            names = frozenset(x[1] if x[0] == 'name' else x[2] for x in ir.walk(e)
+                              if x[0] == 'name' or (x[0] == 'attr' and x[1] == ('name', 'self')))
+            out.append((names, a))
+    return out
+
+
 def check_refusal(rep, rule, c, what, cond_texts, exc, env=None, loop_values=None):
     ok, detail = refuses(c, cond_texts, exc, env, loop_values)
+    if not ok:
+        # a divisibility / rounding test written with other arithmetic over the same quantities may be the same test
+        # (x % (a // b) vs (x * b) % a when b divides a): that is undecided, not refuted
+        try:
+            e2 = dict(env or {})
+            wants = [c.eng.cond(c.parse(t, e2)) for t in ([cond_texts] if isinstance(cond_texts, str) else cond_texts)]
+            wa = [x for w in wants for x in _arith_atoms(c, w)]
+            if wa:
+                def strip(ns):
+                    return {n.lstrip("_") for n in ns}
+                for conds, e, loops, ln, via in raise_sites(c):
+                    if exc is not None and e != exc:
+                        continue
+                    f = _formula(c, conds)
+                    for names, a in _arith_atoms(c, f):
+                        if any(strip(names) >= strip(wn) and a != wt for wn, wt in wa) and not any(a == wt for _, wt in wa):
+                            rep.unk(rule, c.fi.site, what, f"{detail}; but `raise {e}` at line {ln} tests `{a}`, other arithmetic over the same "
+                                    "quantities, which may be the same condition: not decided")
+                            return False
+        except Undecided:
+            pass
     rep.check(ok, rule, c.fi.site, what, detail)
     return ok
